@@ -55,18 +55,32 @@ extern unsigned long fsl_native_assert_failures;
         (b) = _t;               \
     } while (0)
 #define FSL_FLAT(a, i) ((a)[(i)])
+#ifndef FSL_CBMC
+#define FSL_SLOPE(ei, en, d) (((ei) - (en)) / (d))
+#endif
 
 /* xtensor never checks operator() indices; the extraction adds the per-dimension
- * index obligation explicitly (DESIGN 2.1). */
+ * index obligation explicitly (DESIGN 2.1).  Functions, not macros: an index
+ * expression with a side effect (donors_count(irec)++) is evaluated once. */
+static inline size_t fsl_idx1(size_t i, size_t n)
+{
 #ifdef FSL_CBMC
-#define FSL_IDX1(i, n) (__CPROVER_assert((i) < (n), "xtensor index in range (dim 0)"), (i))
-#define FSL_IDX2(i, j, n, w)                                                \
-    (__CPROVER_assert((i) < (n), "xtensor index in range (dim 0)"),        \
-     __CPROVER_assert((j) < (w), "xtensor index in range (dim 1)"), (i) * (w) + (j))
-#else
-#define FSL_IDX1(i, n) (i)
-#define FSL_IDX2(i, j, n, w) ((i) * (w) + (j))
+    __CPROVER_assert(i < n, "xtensor index in range (dim 0)");
 #endif
+    (void) n;
+    return i;
+}
+static inline size_t fsl_idx2(size_t i, size_t j, size_t n, size_t w)
+{
+#ifdef FSL_CBMC
+    __CPROVER_assert(i < n, "xtensor index in range (dim 0)");
+    __CPROVER_assert(j < w, "xtensor index in range (dim 1)");
+#endif
+    (void) n;
+    return i * w + j;
+}
+#define FSL_IDX1(i, n) fsl_idx1((i), (n))
+#define FSL_IDX2(i, j, n, w) fsl_idx2((i), (j), (n), (w))
 
 /* grid node status (base.hpp:42-48) */
 #define FSL_CORE 0
